@@ -91,7 +91,9 @@ def generate_subgraphs(graph: IterationNode) -> list[IterationNode]:
             all_subgraphs.update(new_graphs)
             old_subgraphs = new_graphs
 
-    return list(all_subgraphs.values())
+    # A subgraph must come after every subgraph whose sparse leaves are a superset of its own. Zeroing
+    # one tensor can eliminate several leaves at once, so discovery order does not guarantee this.
+    return sorted(all_subgraphs.values(), key=lambda subgraph: -len(subgraph.compressed_dimensions()))
 
 
 @to_ir_iteration_graph.register(IterationNode)
